@@ -69,38 +69,6 @@ def rand_sig(rng, B, d, pat=None):
         v = hi + 1
     return v
 
-# ----------------------------------------------------------------------------- known-finding predicates
-# (called from known_findings.jsonl `py` conditions; each describes the input class of one defect)
-
-def kf_split_small(op, args):
-    """`split_at_point_internal` shortcut: the number is known to be < 1/B^2 (exp + digits_ub <= -2; for
-    `round` additionally not caught by its own `< -2` shortcut) and the number of fraction digits is
-    reported as `context.precision` instead of `-exp`.  Consequences: the nearest-mode half test is made
-    against B^precision (wrong when 2|signif| >= B^precision; a debug assertion when precision = 0), and
-    `round` computes the result precision as precision - precision = 0 instead of precision + exp."""
-    B, s, e, p, m = fdec(args[0])
-    s, e = normalize(B, s, e)
-    if s == 0 or e >= 0:
-        return False
-    d = ndigits(B, s)
-    if e + d > -2:
-        return False
-    if op == "f.round":
-        if e + d < -3:       # digits_ub may exceed digits by one; `round` returns 0 when exp + digits_ub < -2
-            return False
-        mode = "H"
-        if p > -e:
-            return True      # result precision
-    else:
-        mode = m
-    if p == 0:
-        return True          # debug assertion in round_fract (fract >= B^0); release build: rounds to +-1
-    if mode == "H":
-        return 2 * abs(s) >= B ** p
-    if mode == "E":
-        return 2 * abs(s) > B ** p
-    return False
-
 # ----------------------------------------------------------------------------- generator
 
 def half_fracs(B, k):
@@ -267,11 +235,11 @@ FRONTIER = ["utils::shl_digits / shr_digits per-base fast paths (modelled as *B^
             "(the driver's bit-exact replica is checked against the hypotheses on every operand)"]
 EXPLANATION = ("Lean theorems, for every base >= 2, every precision and all integers: the regenerated six mode tables composed with the "
                "exact half comparison (round_fract, round_ratio) return the adjustment the mode's definition names; repr_round / "
-               "with_precision satisfy the rounding contract over Rat; trunc+fract = x and floor/ceil/round/trunc/to_int name the right "
-               "neighbour with truthful flags for every digits_ub estimator satisfying its enclosure hypothesis - for the REPAIRED "
-               "split_at_point_internal; for the code as it is the theorems carry the hypothesis that excludes the smaller-than-one "
-               "shortcut, and a counterexample theorem shows it is needed (0.0099 at 2 digits rounds to 1). Model tied to /repo by the "
-               "regenerated tables and by differential execution.")
+               "with_precision satisfy the rounding contract over Rat; trunc+fract = x, split_at_point = (trunc, fract) and "
+               "floor/ceil/round/trunc/to_int/Repr::to_int name the right neighbour with truthful flags for every digits_ub estimator "
+               "satisfying its enclosure hypothesis (the model mirrors /repo after fix f9ab1b6 of split_at_point_internal, found here: "
+               "0.0099 at 2 digits rounded to 1); RBig/Relaxed trunc/floor/ceil/round/fract by quotient and remainder. Model tied to "
+               "/repo by the regenerated tables and by differential execution.")
 ASSUMPTIONS = ["f32 log2 estimates satisfy their enclosure hypotheses (checked on every driven operand, not proved for libm's log2f)",
                "IBig/UBig kernels (mul, div_rem, pow, shifts) at their specification (C01/C02)"]
 LEVEL_TEXT = ("Machine-checked Lean 4 theorems over all integers, bases, precisions and modes for the rounding primitives (on top of the "
@@ -279,7 +247,7 @@ LEVEL_TEXT = ("Machine-checked Lean 4 theorems over all integers, bases, precisi
               "the integer roundings of FBig and RBig; the hand-written part of the model is tied to /repo by differential execution "
               "over the complete primitive grid and structured floats around every branch condition of round_ops.rs.")
 LEVEL_NOTE = ("Trusted: Lean kernel; axioms propext/Classical.choice/Quot.sound; the correspondence harness and generators (sampling) "
-              "for the hand-written model; the f32 estimators only through checked enclosure hypotheses. Known defect of the code "
-              "(split_at_point_internal's smaller-than-one shortcut) is recorded in known_findings.jsonl with a proposed fix; the "
-              "full-strength theorems are about the repaired function, partial ones about the code as it is.")
+              "for the hand-written model; the f32 estimators only through checked enclosure hypotheses (not proved for libm's "
+              "log2f). The defect found here (split_at_point_internal's smaller-than-one shortcut) is repaired in /repo (f9ab1b6); "
+              "its witnesses stay in corpus/C10 as regression cases.")
 TECHNIQUE = "Lean 4 proofs over a mirrored model (regenerated decision tables + hand-written arithmetic) + differential correspondence"
